@@ -212,7 +212,15 @@ pub fn find_module(
     let extension = "koto";
     let result = search_folder.join(module_name).with_extension(extension);
     if result.exists() {
-        Ok(result)
+        // The path is used as the module's key in the module cache, so it needs to be the same
+        // path regardless of how the module was referred to (e.g. `shared` and `'../dir/shared'`).
+        canonicalize(&result).map_err(|error| {
+            ModuleLoaderErrorKind::FailedToCanonicalizePath {
+                path: result,
+                error,
+            }
+            .into()
+        })
     } else {
         // Alternatively, check for a neighboring directory with a matching name,
         // that also contains a main file.
